@@ -107,6 +107,14 @@ func value(k kind, src, idx int, zero bool, boolPat int) any {
 
 func isZero(v any) bool { return reflect.ValueOf(v).IsZero() }
 
+// dotenvValue: a value of the field's kind, other than the one the environment holds, written the way a .env file takes it.
+func dotenvValue(k kind, flagText string) string {
+	if k == kString {
+		return strconv.Quote(flagText + "-from-dotenv")
+	}
+	return strconv.Quote(flagText)
+}
+
 // textual form of a value for an environment variable / a flag's Set / a file's duration entry
 func text(v any) string {
 	switch x := v.(type) {
@@ -143,6 +151,11 @@ type scenario struct {
 	// ValidatorStyle: "" = the Validate methods use ozzo-validation (what the ReadMe shows); "library-error" = they report a
 	// missing field themselves, with an error of the library of another kind than 'invalid' (UndefinedVariable)
 	ValidatorStyle string `json:"validator_style,omitempty"`
+	// DotEnv: the working directory holds a .env file that defines every environment variable the scenario sets — the
+	// very same names — with other values. A .env file completes the process environment (godotenv.Load); it is not one of
+	// the four sources, and a variable that IS set in the environment keeps its value: the load must come out exactly as
+	// it does without the file.
+	DotEnv bool `json:"dotenv_file_redefines_the_set_variables,omitempty"`
 }
 
 func newScenario(part string, s *structSpec, prefix string, envNames []string) *scenario {
@@ -185,6 +198,8 @@ type outcome struct {
 	Winners    []string // per field: source class that the loaded value corresponds to (for outcome statistics)
 	Panic      string
 	Details    map[string]any
+	API        string // which entry point ran
+	EnvVars    int    // environment variables the scenario set
 }
 
 type runner struct {
@@ -346,6 +361,20 @@ func (r *runner) run(s *structSpec, sc *scenario) (out outcome) {
 			_ = os.Unsetenv(k)
 		}
 	}()
+	out.EnvVars = len(envSet)
+	if sc.DotEnv && len(envSet) > 0 {
+		var b strings.Builder
+		for i := range s.Fields {
+			if present(i, srcEnv) {
+				fmt.Fprintf(&b, "%s=%s\n", sc.EnvNames[i], dotenvValue(s.Fields[i].Kind, text(val(i, srcFlag))))
+			}
+		}
+		if err := os.WriteFile(".env", []byte(b.String()), 0o600); err != nil {
+			out.Panic = "ENGINE: cannot write .env: " + err.Error()
+			return
+		}
+		defer os.Remove(".env")
+	}
 
 	// ---- flags -----------------------------------------------------------------------------------
 	session := viper.New()
@@ -438,6 +467,7 @@ func (r *runner) run(s *structSpec, sc *scenario) (out outcome) {
 	}()
 	r.loads++
 	r.byAPI[api]++
+	out.API = api
 	if out.Err != nil {
 		out.ErrText = out.Err.Error()
 	}
